@@ -1,5 +1,7 @@
 from __future__ import annotations
 
+import math
+
 import torch
 
 from torchtree.core.abstractparameter import AbstractParameter
@@ -68,8 +70,7 @@ class ELBO(CallableModel):
             log_q = self.q()
             log_p = self.p()
             lp = (
-                torch.logsumexp(log_p - log_q, -1)
-                - torch.tensor(float(log_p.shape[-1])).log()
+                torch.logsumexp(log_p - log_q, -1) - math.log(log_p.shape[-1])
             ).mean()
         else:
             self.q.rsample(samples)
